@@ -94,6 +94,18 @@ def make_strategy(placer, premise):
                                if small else None))
         case["placer"] = placer
         case["options"] = draw(options_strategy(placer, case))
+        # a machine description may still carry the resource figures of a
+        # chip that has since died (only without global reservations, which
+        # index the machine with every exception - observation O3)
+        m = case["machine"]
+        glob = any(c["type"] == "reserve" and c["loc"] is None
+                   for c in case["constraints"])
+        if m["dead_chips"] and not glob and draw(st.integers(0, 2)) == 0:
+            d = draw(st.sampled_from(m["dead_chips"]))
+            if not any((x, y) == tuple(d) for x, y, r in m["exceptions"]):
+                m["exceptions"].append(
+                    [d[0], d[1], dict((r, v + 2)
+                                      for r, v in m["resources"].items())])
         return case
     return lambda tier: strat(tier)
 
